@@ -51,6 +51,9 @@ theorem declsAt_pos (p : Nat) (ns : List Name) : ∀ d ∈ declsAt p ns, p ≤ d
 @[simp] theorem addDecl_out (s : ISt) (d : Decl) : (s.addDecl d).out = s.out := rfl
 @[simp] theorem addDecl_frames (s : ISt) (d : Decl) : (s.addDecl d).frames = addKids [.decl d] s.frames := by
   simp [ISt.addDecl, addChild_eq]
+@[simp] theorem logLookup_pos (s : ISt) (p : Nat) : (s.logLookup p).pos = s.pos := rfl
+@[simp] theorem logLookup_out (s : ISt) (p : Nat) : (s.logLookup p).out = s.out := rfl
+@[simp] theorem logLookup_frames (s : ISt) (p : Nat) : (s.logLookup p).frames = s.frames := rfl
 @[simp] theorem use_pos (s : ISt) (n : Name) : (s.use n).pos = s.pos + 2 := rfl
 @[simp] theorem use_frames (s : ISt) (n : Name) : (s.use n).frames = s.frames := rfl
 @[simp] theorem useSelf_pos (s : ISt) : s.useSelf.pos = s.pos + 2 := rfl
